@@ -1,0 +1,141 @@
+//go:build verif
+
+// Contracts for govc (contract-based deductive verification, see /verif/DESIGN.md).
+// Comment-only file: it contains no code and is compiled only under the verif tag.
+
+package raft
+
+// ---------------------------------------------------------------- inMemory
+
+//@ pred (im *inMemory) valid() := im.markerIndex + len(im.entries) <= MaxUint64 &&
+//@   (forall i int :: 0 <= i && i < len(im.entries) ==> im.entries[i].Index == im.markerIndex + i) &&
+//@   (im.snapshot != nil ==> im.snapshot.Index < im.markerIndex)
+
+//@ pred (im *inMemory) lastIdx() := im.markerIndex + len(im.entries) - 1
+
+//@ func newInMemory [C19]
+//@ requires lastIndex < MaxUint64
+//@ ensures result.markerIndex == lastIndex + 1 && result.savedTo == lastIndex
+//@ ensures len(result.entries) == 0 && result.snapshot == nil && result.rl == rl
+//@ ensures result.appliedToIndex == 0 && result.appliedToTerm == 0 && !result.shrunk
+
+//@ func (im *inMemory) getEntries [C19]
+//@ inline
+//@ requires im.valid()
+//@ ensures low <= high && low >= im.markerIndex && high <= im.markerIndex + len(im.entries)
+//@ ensures len(result) == high - low
+//@ ensures ptr(result) == ptr(im.entries[low - im.markerIndex:])
+//@ ensures forall i int :: 0 <= i && i < len(result) ==> result[i].Index == low + i && result[i].Term == im.entries[low - im.markerIndex + i].Term
+
+//@ func (im *inMemory) getSnapshotIndex [C19]
+//@ inline
+//@ ensures im.snapshot != nil ==> result0 == im.snapshot.Index && result1
+//@ ensures im.snapshot == nil ==> result0 == 0 && !result1
+
+//@ func (im *inMemory) getLastIndex [C19]
+//@ inline
+//@ requires im.valid()
+//@ ensures len(im.entries) > 0 ==> result0 == im.markerIndex + len(im.entries) - 1 && result1
+//@ ensures len(im.entries) == 0 && im.snapshot != nil ==> result0 == im.snapshot.Index && result1
+//@ ensures len(im.entries) == 0 && im.snapshot == nil ==> result0 == 0 && !result1
+
+//@ func (im *inMemory) getTerm [C19 C02]
+//@ requires im.valid()
+//@ ensures (index > 0 && index == im.appliedToIndex) ==> result0 == im.appliedToTerm && result1 && result0 != 0
+//@ ensures !(index > 0 && index == im.appliedToIndex) && index >= im.markerIndex && index < im.markerIndex + len(im.entries) ==>
+//@    result1 && result0 == im.entries[index - im.markerIndex].Term
+//@ ensures !(index > 0 && index == im.appliedToIndex) && index >= im.markerIndex + len(im.entries) ==> !result1 && result0 == 0
+//@ ensures !(index > 0 && index == im.appliedToIndex) && index < im.markerIndex && im.snapshot != nil && im.snapshot.Index == index ==>
+//@    result1 && result0 == im.snapshot.Term
+//@ ensures !(index > 0 && index == im.appliedToIndex) && index < im.markerIndex && !(im.snapshot != nil && im.snapshot.Index == index) ==>
+//@    !result1 && result0 == 0
+
+//@ func (im *inMemory) entriesToSave [C19]
+//@ requires im.valid() && im.savedTo < MaxUint64
+//@ ensures im.savedTo + 1 >= im.markerIndex && im.savedTo + 1 <= im.markerIndex + len(im.entries) ==>
+//@    len(result) == im.markerIndex + len(im.entries) - (im.savedTo + 1) && ptr(result) == ptr(im.entries[im.savedTo + 1 - im.markerIndex:])
+//@ ensures !(im.savedTo + 1 >= im.markerIndex && im.savedTo + 1 <= im.markerIndex + len(im.entries)) ==> len(result) == 0
+//@ ensures forall i int :: 0 <= i && i < len(result) ==> result[i].Index == im.savedTo + 1 + i
+
+//@ func (im *inMemory) savedLogTo [C19]
+//@ requires im.valid()
+//@ modifies im.savedTo
+//@ ensures im.valid()
+//@ ensures (index >= old(im.markerIndex) && index < old(im.markerIndex) + len(old(im.entries)) && old(im.entries[index - im.markerIndex].Term) == term) ==> im.savedTo == index
+//@ ensures !(index >= old(im.markerIndex) && index < old(im.markerIndex) + len(old(im.entries)) && old(im.entries[index - im.markerIndex].Term) == term) ==> im.savedTo == old(im.savedTo)
+
+//@ func (im *inMemory) savedSnapshotTo [C19]
+//@ requires im.valid()
+//@ modifies im.snapshot
+//@ ensures im.valid()
+//@ ensures old(im.snapshot) != nil && old(im.snapshot.Index) == index ==> im.snapshot == nil
+//@ ensures !(old(im.snapshot) != nil && old(im.snapshot.Index) == index) ==> im.snapshot == old(im.snapshot)
+
+//@ func (im *inMemory) commitUpdate [C19]
+//@ requires im.valid()
+//@ modifies im.savedTo, im.snapshot
+//@ ensures im.valid()
+//@ ensures (cu.StableLogTo > 0 && cu.StableLogTo >= old(im.markerIndex) && cu.StableLogTo < old(im.markerIndex) + len(old(im.entries)) && old(im.entries[cu.StableLogTo - im.markerIndex].Term) == cu.StableLogTerm) ==> im.savedTo == cu.StableLogTo
+//@ ensures !(cu.StableLogTo > 0 && cu.StableLogTo >= old(im.markerIndex) && cu.StableLogTo < old(im.markerIndex) + len(old(im.entries)) && old(im.entries[cu.StableLogTo - im.markerIndex].Term) == cu.StableLogTerm) ==> im.savedTo == old(im.savedTo)
+
+//@ func (im *inMemory) newEntrySlice [C19]
+//@ ensures len(result) == len(ents) && fresh(result)
+//@ ensures forall i int :: 0 <= i && i < len(ents) ==> result[i] == ents[i]
+
+//@ func (im *inMemory) resize [C19]
+//@ requires im.valid()
+//@ modifies im.shrunk, im.entries
+//@ ensures im.valid() && !im.shrunk && len(im.entries) == len(old(im.entries)) && fresh(im.entries)
+//@ ensures forall i int :: 0 <= i && i < len(im.entries) ==> im.entries[i] == old(im.entries[i])
+
+//@ func (im *inMemory) tryResize [C19]
+//@ requires im.valid()
+//@ modifies im.shrunk, im.entries
+//@ ensures im.valid() && len(im.entries) == len(old(im.entries))
+//@ ensures (ptr(im.entries) == ptr(old(im.entries)) && cap(im.entries) == cap(old(im.entries))) || fresh(im.entries)
+//@ ensures forall i int :: 0 <= i && i < len(im.entries) ==> im.entries[i] == old(im.entries[i])
+
+//@ func (im *inMemory) resizeEntrySlice [C19]
+//@ requires im.valid()
+//@ modifies im.shrunk, im.entries
+//@ ensures im.valid() && len(im.entries) == len(old(im.entries))
+//@ ensures forall i int :: 0 <= i && i < len(im.entries) ==> im.entries[i] == old(im.entries[i])
+//@ ensures (ptr(im.entries) == ptr(old(im.entries)) && cap(im.entries) == cap(old(im.entries))) || fresh(im.entries)
+
+//@ func (im *inMemory) appliedLogTo [C19]
+//@ requires im.valid()
+//@ modifies im.appliedToIndex, im.appliedToTerm, im.shrunk, im.entries, im.markerIndex
+//@ ensures im.valid()
+//@ ensures (index >= old(im.markerIndex) && index < old(im.markerIndex) + len(old(im.entries))) ==>
+//@    im.markerIndex == index + 1 && len(im.entries) == old(im.markerIndex) + len(old(im.entries)) - (index + 1) &&
+//@    im.appliedToIndex == index && im.appliedToTerm == old(im.entries[index - im.markerIndex].Term) &&
+//@    (forall i int :: 0 <= i && i < len(im.entries) ==> im.entries[i] == old(im.entries[i + (index + 1 - im.markerIndex)]))
+//@ ensures !(index >= old(im.markerIndex) && index < old(im.markerIndex) + len(old(im.entries))) ==>
+//@    im.markerIndex == old(im.markerIndex) && len(im.entries) == len(old(im.entries)) && ptr(im.entries) == ptr(old(im.entries)) &&
+//@    im.appliedToIndex == old(im.appliedToIndex) && im.appliedToTerm == old(im.appliedToTerm)
+
+//@ func (im *inMemory) restore [C19]
+//@ requires ss.Index < MaxUint64
+//@ modifies im.snapshot, im.markerIndex, im.appliedToIndex, im.appliedToTerm, im.shrunk, im.entries, im.savedTo
+//@ ensures im.valid()
+//@ ensures im.markerIndex == ss.Index + 1 && im.savedTo == ss.Index && len(im.entries) == 0
+//@ ensures im.appliedToIndex == ss.Index && im.appliedToTerm == ss.Term
+//@ ensures im.snapshot != nil && im.snapshot.Index == ss.Index && im.snapshot.Term == ss.Term && fresh(im.snapshot)
+
+//@ pred consecutive(ents []pb.Entry) := len(ents) > 0 && ents[0].Index + len(ents) <= MaxUint64 &&
+//@   (forall i int :: 0 <= i && i < len(ents) ==> ents[i].Index == ents[0].Index + i)
+
+//@ func (im *inMemory) merge [C19 C02]
+//@ requires im.valid() && consecutive(ents) && ents[0].Index > 0
+//@ requires im.snapshot != nil ==> ents[0].Index > im.snapshot.Index
+//@ modifies im.markerIndex, im.shrunk, im.entries, im.savedTo, elems(im.entries[len(im.entries):])
+//@ ensures im.valid()
+//@ ensures im.markerIndex == min(old(im.markerIndex), old(ents[0].Index))
+//@ ensures im.markerIndex + len(im.entries) == old(ents[0].Index) + len(ents)
+//@ ensures old(ents[0].Index) <= old(im.markerIndex) + len(old(im.entries))
+//@ ensures forall i int :: 0 <= i && i < len(ents) ==> im.entries[old(ents[0].Index) - im.markerIndex + i] == old(ents[i])
+//@ ensures forall j int :: im.markerIndex <= j && j < old(ents[0].Index) ==> im.entries[j - im.markerIndex] == old(im.entries[j - im.markerIndex])
+//@ ensures old(ents[0].Index) == old(im.markerIndex) + len(old(im.entries)) ==> im.savedTo == old(im.savedTo)
+//@ ensures old(ents[0].Index) <= old(im.markerIndex) && old(ents[0].Index) != old(im.markerIndex) + len(old(im.entries)) ==> im.savedTo == old(ents[0].Index) - 1
+//@ ensures old(ents[0].Index) > old(im.markerIndex) && old(ents[0].Index) < old(im.markerIndex) + len(old(im.entries)) ==> im.savedTo == min(old(im.savedTo), old(ents[0].Index) - 1)
+//@ ensures im.savedTo <= old(im.savedTo) || im.savedTo == old(ents[0].Index) - 1
